@@ -632,6 +632,21 @@ def o_c13(v):
             fin = v.end(m)
             if en is not None and en[0] < sd[0] and (fin is None or fin[0] > sd[0]):
                 return 'shutdown of %s began while its job %s was still running' % (S, m)
+        raised = v.first(S, 'shutdown-raised')
+        if raised is not None:
+            return 'co_shutdown() of %s raised %r' % (S, raised[4].get('exc'))
+        # "the shutdown phase lasts at most shutdown_timeout, handlers still pending then being cancelled": no
+        # handler of a direct atomic job is still going after that (plus the time the cancellation itself takes)
+        st0 = v.b.spec[S].get('shutdown_timeout', 1)
+        if st0 is not None:
+            for m in v.b.members[S]:
+                if v.is_sched(m):
+                    continue
+                h0 = v.first(m, 'shutdown')
+                h1 = v.first(m, 'shutdown-done', 'shutdown-cancelled')
+                if h0 is not None and h0[0] > sd[0] and (h1 is None or h1[1] > sd[1] + st0 + 1e-9):
+                    return 'shutdown handler of %s still going after shutdown_timeout %s of %s (began %s, ended %s)' % (
+                        m, st0, S, sd[1], h1[1] if h1 else None)
         dones = [e for e in v.all(S, 'shutdown-done') if e[4].get('call') == 1]
         done = dones[0] if dones else None
         st = v.b.spec[S].get('shutdown_timeout', 1)
